@@ -215,6 +215,32 @@ def _prepared_up_front(Config, fails):
             fails.append('a Config object entered twice: the initial configuration is not restored')
 
 
+def _preconditioned(Config, fails):
+    """a configuration whose solver options carry a preconditioner: applying an inverse created under it leaves the
+    configuration, the caller's option dict and what later inverses capture exactly as the block set them"""
+    from furax._base.core import InverseOperator
+    from furax._base.diagonal import DiagonalOperator
+    s = jax.ShapeDtypeStruct((3,), jnp.float32)
+    pre = DiagonalOperator(jnp.array([0.5, 0.33, 0.25], jnp.float32), in_structure=s)
+    opts = {'preconditioner': pre, 'note': 7}
+    with Config(solver_options=opts) as outer:
+        with Config(solver_throw=False):
+            inv = InverseOperator(_operator())
+            inv.mv(jnp.array([1., 2., 3.], jnp.float32))
+            inner_opts = Config.instance().solver_options
+            if inner_opts.get('preconditioner') is not pre:
+                fails.append('preconditioned: applying an inverse changed the active configuration (its preconditioner is now '
+                             f'a {type(inner_opts.get("preconditioner")).__name__})')
+        if Config.instance() is not outer or outer.solver_options.get('preconditioner') is not pre:
+            fails.append('preconditioned: leaving the inner block does not restore the outer configuration as it was set')
+        later = InverseOperator(_operator())
+        if later.config.solver_options.get('preconditioner') is not pre:
+            fails.append('preconditioned: an inverse created later in the block captures '
+                         f'{type(later.config.solver_options.get("preconditioner")).__name__} instead of the configured preconditioner')
+    if opts != {'preconditioner': pre, 'note': 7} or opts['preconditioner'] is not pre:
+        fails.append('preconditioned: the option dict given to Config(...) was modified by applying an inverse')
+
+
 def history(w, seed, spec):
     from furax import Config
     from furax._base.config import ConfigState
@@ -237,6 +263,7 @@ def history(w, seed, spec):
         # depth-2 nesting, normal and raising exits, deterministic
         _guard(fails, 'nested', lambda: _nested(Config, defaults, fails))
         _guard(fails, 'prepared up front', lambda: _prepared_up_front(Config, fails))
+        _guard(fails, 'preconditioned', lambda: _preconditioned(Config, fails))
         try:
             Config(no_such_setting=1)
             fails.append('Config(no_such_setting=...) accepted')
